@@ -22,3 +22,19 @@ def decodeAscii (bytes : List Nat) : Option (List Nat) := if bytes.all (· < 128
 def mulKey (offset : Nat) (e1 e2 : List Nat) : Option (List Nat) :=
   decodeAscii ((List.zipWith (· + ·) e1 e2).map (sprintfByte offset))
 end Np.Key
+
+namespace Np.Key
+/-- the key `multiply` (as repaired) stores a product term under: the compiled byte formatter only when the
+coefficient dtype is one the C helpers know and every result exponent plus the offset stays below 128;
+otherwise the key is built in Python from the exponent sum itself -/
+def mulKeyPath (offset : Nat) (dtypeOk : Bool) (maxExp : Nat) (e1 e2 : List Nat) : Option (List Nat) :=
+  if dtypeOk && decide (maxExp + offset < 128) then mulKey offset e1 e2
+  else encodeKey offset (List.zipWith (· + ·) e1 e2)
+
+/-- does a key survive the text header (`numpy.savetxt` header line, `str.split`, `\S+` regex)?  The header
+separates names / keys / shape by blanks and keys by commas. -/
+def headerSafe (k : List Nat) : Bool :=
+  k.all fun c => !(c == 44 || c == 10 || c == 13 || c == 32 || c == 9 || c == 11 || c == 12 || c == 133 || c == 160
+    || c == 5760 || (8192 ≤ c && c ≤ 8202) || c == 8232 || c == 8233 || c == 8239 || c == 8287 || c == 12288
+    || (28 ≤ c && c ≤ 31))
+end Np.Key
